@@ -233,6 +233,94 @@ func c06FuncObj(g *flow.Func) types.Object {
 	return nil
 }
 
+// c06PresignField resolves the field of SigningContext that says "this request is presigned"
+// by role: the bool or small-integer (enum) field that is assigned a constant in every function
+// of the package that also assigns ExpireTime (Presign, the query initialiser). For an enum
+// the second result is the constant meaning "presigned" ("" for a bool).
+func c06PresignField(c *core.Ctx, expF *types.Var) (*types.Var, string) {
+	if expF == nil {
+		return nil, ""
+	}
+	named := namedType(c, c06sig, "SigningContext")
+	if named == nil {
+		return nil, ""
+	}
+	st, _ := named.Underlying().(*types.Struct)
+	type cand struct {
+		n     int
+		value string
+		same  bool
+	}
+	cands := map[*types.Var]*cand{}
+	funcs := 0
+	for _, g := range funcsByRole(c, c06sig, func(g *flow.Func, fd *ast.FuncDecl) bool { return true }) {
+		assignsExp := false
+		consts := map[*types.Var]string{}
+		ast.Inspect(g.Body, func(n ast.Node) bool {
+			as, ok := n.(*ast.AssignStmt)
+			if !ok || len(as.Lhs) != len(as.Rhs) {
+				return true
+			}
+			for i, l := range as.Lhs {
+				fld := c06FieldSel(g, l)
+				if fld == nil {
+					continue
+				}
+				if fld == expF {
+					assignsExp = true
+				}
+				if tv, ok := g.Info.Types[as.Rhs[i]]; ok && tv.Value != nil {
+					if b, ok := fld.Type().Underlying().(*types.Basic); ok && (b.Info()&types.IsBoolean != 0 || b.Info()&types.IsInteger != 0) {
+						consts[fld] = tv.Value.ExactString()
+					}
+				}
+			}
+			return true
+		})
+		if !assignsExp {
+			continue
+		}
+		funcs++
+		for fld, v := range consts {
+			cd := cands[fld]
+			if cd == nil {
+				cd = &cand{value: v, same: true}
+				cands[fld] = cd
+			}
+			cd.n++
+			if cd.value != v {
+				cd.same = false
+			}
+		}
+	}
+	var found *types.Var
+	value := ""
+	for fld, cd := range cands {
+		inStruct := false
+		for i := 0; st != nil && i < st.NumFields(); i++ {
+			if st.Field(i) == fld {
+				inStruct = true
+			}
+		}
+		if !inStruct || cd.n != funcs || !cd.same || funcs == 0 {
+			continue
+		}
+		if found != nil {
+			c.Errorf("R-C06-6: anchor: two fields of SigningContext play the presign-indicator role (%s, %s)", found.Name(), fld.Name())
+			return nil, ""
+		}
+		found, value = fld, cd.value
+	}
+	if found == nil {
+		c.Errorf("R-C06-6: anchor: cannot resolve the presign indicator of SigningContext (a bool / enum field set together with ExpireTime)")
+		return nil, ""
+	}
+	if b, ok := found.Type().Underlying().(*types.Basic); ok && b.Info()&types.IsBoolean != 0 {
+		return found, ""
+	}
+	return found, value
+}
+
 func c06Signer(c *core.Ctx) {
 	c06Canonical(c)
 	c06Sign(c)
@@ -1161,7 +1249,7 @@ func c06Verify(c *core.Ctx) {
 	sigF := structField(c, c06sig, "SigningContext", "Signature")
 	timeF := structField(c, c06sig, "SigningContext", "Time")
 	expF := structField(c, c06sig, "SigningContext", "ExpireTime")
-	preF := structField(c, c06sig, "SigningContext", "isPresign")
+	preF, preConst := c06PresignField(c, expF)
 	ttlF := structField(c, c06sig, "Signer", "ttl")
 	secretF := structField(c, c06sig, "SigningContext", "AccessKeySecret")
 	signFn := c06SignerRole(c, "sign")
@@ -1333,7 +1421,8 @@ func c06Verify(c *core.Ctx) {
 	}
 	// ---- atoms
 	var eqAtoms, upper, lower, expire, enabled []c06Atom
-	var presignKeys []string
+	var presignKeys, otherKeys []string
+	var notPresign []c06Atom // key/value pairs that establish "not presigned"
 	var ageObjs = map[types.Object]bool{}
 	// the age of the signature: now.Sub(ctx.Time) / time.Since(ctx.Time)
 	isAgeExpr := func(e ast.Expr) bool {
@@ -1387,10 +1476,11 @@ func c06Verify(c *core.Ctx) {
 	inspectAll(func(n ast.Node) bool {
 		switch x := n.(type) {
 		case *ast.SelectorExpr:
-			if c06FieldSel(f, x) == preF {
+			if c06FieldSel(f, x) == preF && preConst == "" {
 				k, neg := f.Atom(x)
 				if !neg {
 					presignKeys = append(presignKeys, k)
+					notPresign = append(notPresign, c06Atom{k, flow.False})
 				}
 			}
 		case *ast.CallExpr:
@@ -1404,6 +1494,25 @@ func c06Verify(c *core.Ctx) {
 		case *ast.BinaryExpr:
 			switch x.Op {
 			case token.EQL, token.NEQ:
+				// the presign indicator as an enum: location == inQuery
+				if preConst != "" {
+					for _, pair := range [][2]ast.Expr{{x.X, x.Y}, {x.Y, x.X}} {
+						if c06FieldSel(f, ast.Unparen(pair[0])) != preF {
+							continue
+						}
+						if tv, ok := f.Info.Types[pair[1]]; ok && tv.Value != nil {
+							k := f.EqKey(x.X, x.Y)
+							if tv.Value.ExactString() == preConst {
+								presignKeys = append(presignKeys, k)
+								notPresign = append(notPresign, c06Atom{k, flow.False})
+							} else {
+								// equal to another constant of the enumeration: not presigned
+								otherKeys = append(otherKeys, k)
+								notPresign = append(notPresign, c06Atom{k, flow.True})
+							}
+						}
+					}
+				}
 				if (isPresented(x.X) && isRecomputed(x.Y)) || (isPresented(x.Y) && isRecomputed(x.X)) {
 					eqAtoms = append(eqAtoms, c06Atom{f.EqKey(x.X, x.Y), flow.True})
 				}
@@ -1510,7 +1619,7 @@ func c06Verify(c *core.Ctx) {
 			case token.EQL, token.NEQ, token.LSS, token.GTR, token.LEQ, token.GEQ:
 				k1 := f.EqKey(x.X, x.Y)
 				k2, _ := f.Atom(x)
-				for _, lst := range [][]c06Atom{eqAtoms, upper, lower, expire, enabled} {
+				for _, lst := range [][]c06Atom{eqAtoms, upper, lower, expire, enabled, notPresign} {
 					for _, a := range lst {
 						if a.key == k1 || a.key == k2 {
 							mark(x)
@@ -1614,6 +1723,7 @@ func c06Verify(c *core.Ctx) {
 		}
 	}
 	atomKeys = append(atomKeys, presignKeys...)
+	atomKeys = append(atomKeys, otherKeys...)
 	atomKeys = append(atomKeys, okKeys...)
 	ev := func(k string) string { return "ev:atom:" + k }
 	mirror := func(st *flow.State) {
@@ -1777,8 +1887,8 @@ func c06Verify(c *core.Ctx) {
 		return false
 	}
 	notPresigned := func(st *flow.State) bool {
-		for _, k := range presignKeys {
-			if st.Is(ev(k), flow.False) {
+		for _, a := range notPresign {
+			if st.Get(ev(a.key)) == a.want {
 				return true
 			}
 		}
